@@ -240,6 +240,7 @@ ADDENDA4 = {
  'C17': ('K4 rounds values converted to single precision, so a clip bound of (float)INT_MAX is seen as 2^31 (R17.8).', ''),
  'C18': ('The size argument of memset/memcpy/memmove on elements wider than a byte is a byte count (constant or with a sizeof factor), so no tail of a buffer keeps stale stack or heap contents (R18.8).', ''),
  'C19': ('The lapped time-seek worker and the plain time seeks accept the same times: K4 at T-1/2, T and T+1 on a single-link handle of total time T (R19.13); values read from ov_info(vf,-1) before _ov_initset are stale when the handle is entered below STREAMSET (R19.10 with K5 entry states).', ' + K4 probes at constant arguments'),
+ 'C20': ('A half-rate request made on a partially open handle reaches the links the open finds: where ov_halfrate can answer 0 in state PARTOPEN (K4 with that constant), the function that completes the link table calls vorbis_synthesis_halfrate behind the point where the table has grown (R20.12; finding F49 repaired).', ''),
 }
 
 def main():
